@@ -42,6 +42,16 @@ def _work(task):
     t0 = time.time()
     if os.environ.get('VERIF_TRACE_TASKS'):
         print('  [task] %s [%s] start' % (fname, label), flush=True)
+    budget = int(os.environ.get('VERIF_TASK_BUDGET', '900'))
+
+    def _expired(signum, frame):
+        raise AnalysisBroken('the analysis of %s [%s] did not finish within %d s (it does not converge in reasonable time on this tree)' % (fname, label, budget))
+    try:
+        import signal
+        signal.signal(signal.SIGALRM, _expired)
+        signal.alarm(budget)
+    except (ValueError, AttributeError):
+        pass
     try:
         mod = _G['mod']
         hooks_cls = _G['hooks_cls']
@@ -67,6 +77,12 @@ def _work(task):
     except Exception as e:
         return {'fn': fname, 'label': label, 'ok': False, 'error': '%s: %s\n%s' % (type(e).__name__, e, traceback.format_exc()[-1500:]),
                 'wall': time.time() - t0}
+    finally:
+        try:
+            import signal
+            signal.alarm(0)
+        except (ValueError, AttributeError):
+            pass
 
 
 def labels_for(mod, fname):
